@@ -10,6 +10,22 @@ from ..flow import Analysis, ForIter, WithEnter, WithExit, call_of
 from ..tables import CANNOT_RAISE, CANNOT_RAISE_METHODS, REPO_CANNOT_RAISE
 
 
+LOGGING_METHODS = {"debug", "info", "warning", "error", "exception", "critical", "log", "isEnabledFor"}
+_PURE_BUILTINS = {"isinstance", "callable", "getattr", "hasattr", "len", "bool", "type", "issubclass", "all", "any"}
+
+
+def _pure_predicate(g: FunctionInfo) -> bool:
+    """no await / yield / raise / with / try, every call is a side-effect-free builtin: the function can only return a value"""
+    if isinstance(g.node, ast.Lambda) or g.is_async or g.is_generator:
+        return False
+    for n in ast.walk(g.node):
+        if isinstance(n, (ast.Raise, ast.With, ast.Try, ast.Await, ast.Yield, ast.YieldFrom, ast.Assert, ast.Delete, ast.Global, ast.Nonlocal)):
+            return False
+        if isinstance(n, ast.Call) and not (isinstance(n.func, ast.Name) and n.func.id in _PURE_BUILTINS):
+            return False
+    return True
+
+
 class RuleAnalysis(Analysis):
     def __init__(self, engine) -> None:
         super().__init__(engine.lattice)
@@ -60,6 +76,15 @@ class RuleAnalysis(Analysis):
                 return True
         if isinstance(call.func, ast.Attribute) and call.func.attr in CANNOT_RAISE_METHODS:
             return True
+        # logging: `logger.debug(...)`, `self.__logger.warning(...)`, `logger.isEnabledFor(...)` (trusted: the logging module reports its own
+        # failures through its error handler, it does not raise into the caller)
+        if isinstance(call.func, ast.Attribute) and call.func.attr in LOGGING_METHODS and "logger" in (dotted(call.func.value) or "").lower():
+            return True
+        # a private, pure predicate of the same module (`_is_transport_like(x)`: attribute look-ups, isinstance / callable / getattr only)
+        if isinstance(call.func, ast.Name) and call.func.id.startswith("_") and self.fn is not None:
+            g = self.fn.module.functions.get(call.func.id)
+            if g is not None and _pure_predicate(g):
+                return True
         return False
 
     SILENT_CMS = ("suppress", "nullcontext", "ExitStack", "AsyncExitStack", "closing")
